@@ -87,13 +87,37 @@ package keeper
 //@   panics_declared
 //@   modifies pos.idx[validator.Address]
 //@   ensures pos.idx[validator.Address] == upd(old(pos.idx[validator.Address]), val(validator.StakedTokens) / 1000000, false)
-//@ assumed func (k Keeper) SetUnstakingValidator(ctx sdk.Ctx, val types.Validator)
+// the unstaking queue slot of time t is stored as an amino list of addresses; pos.queue[t] is the SET of its elements
+// (order and multiplicity are not modelled): get returns a list with exactly that element set, set stores one
+//@ assumed func (k Keeper) getUnstakingValidators(ctx sdk.Ctx, unstakingTime time.Time) (valAddrs []sdk.Address)
 //@   mode value
+//@   ensures fresh(valAddrs) && (forall j int :: 0 <= j && j < len(valAddrs) ==> valAddrs[j] != nil)
+//@   ensures forall j int :: 0 <= j && j < len(valAddrs) ==> pos.queue[unstakingTime][valAddrs[j]]
+//@   ensures forall a Bytes :: pos.queue[unstakingTime][a] ==> (exists j int :: 0 <= j && j < len(valAddrs) && valAddrs[j] == a)
+//@ assumed func (k Keeper) setUnstakingValidators(ctx sdk.Ctx, unstakingTime time.Time, keys []sdk.Address)
+//@   mode value
+//@   modifies pos.queue[unstakingTime]
+//@   ensures forall j int :: 0 <= j && j < len(keys) ==> pos.queue[unstakingTime][keys[j]]
+//@   ensures forall a Bytes :: pos.queue[unstakingTime][a] ==> (exists j int :: 0 <= j && j < len(keys) && keys[j] == a)
+//@ assumed func (k Keeper) deleteUnstakingValidators(ctx sdk.Ctx, unstakingTime time.Time)
+//@   mode value
+//@   modifies pos.queue[unstakingTime]
+//@   ensures forall a Bytes :: !pos.queue[unstakingTime][a]
+// C06: queueing appends the address to the slot of its completion time; un-queueing filters it out (and drops an empty slot)
+//@ func (k Keeper) SetUnstakingValidator(ctx sdk.Ctx, val types.Validator)
+//@   props C06 C05
+//@   requires val.Address != nil
 //@   modifies pos.queue[val.UnstakingCompletionTime]
 //@   ensures pos.queue[val.UnstakingCompletionTime] == upd(old(pos.queue[val.UnstakingCompletionTime]), val.Address, true)
-//@ assumed func (k Keeper) deleteUnstakingValidator(ctx sdk.Ctx, val types.Validator)
-//@   mode value
+//@ func (k Keeper) deleteUnstakingValidator(ctx sdk.Ctx, val types.Validator)
+//@   props C06 C05
+//@   requires val.Address != nil
 //@   modifies pos.queue[val.UnstakingCompletionTime]
+//@   loop 1 frame strict
+//@   loop 1 invariant 0 - 1 <= #rangeindex && #rangeindex < len(validators) && (newValidators == nil || loopfresh(newValidators))
+//@   loop 1 invariant forall j int :: 0 <= j && j < len(newValidators) ==> newValidators[j] != val.Address
+//@   loop 1 invariant forall j int :: 0 <= j && j < len(newValidators) ==> pos.queue[val.UnstakingCompletionTime][newValidators[j]]
+//@   loop 1 invariant forall k int :: 0 <= k && k <= #rangeindex && validators[k] != val.Address ==> (exists j int :: {j == len(newValidators) - 1} 0 <= j && j < len(newValidators) && newValidators[j] == validators[k])
 //@   ensures pos.queue[val.UnstakingCompletionTime] == upd(old(pos.queue[val.UnstakingCompletionTime]), val.Address, false)
 //@ assumed func (k Keeper) GetValidatorSigningInfo(ctx sdk.Ctx, address sdk.Address) (info types.ValidatorSigningInfo, found bool)
 //@   mode value
